@@ -19,7 +19,7 @@ RULE = (
     "mode 'centres': world {equator,npole,straddle|+spole,generic} x N{2,3,4} x every permutation of the centre "
     "list x layout {single object per centre, several objects incl. near-border, objects 3.5e-7 ... 5e-9 rad from a border, outermost objects with weight 0 / -1, centre k attracts nothing "
     "for each k} x weighted; mode 'ids': N{2,3,4} x scrambled id columns x weighted; mode 'create': patch_num "
-    "{2,3} on clumped data; from_random with given centres and a patch_num that must be ignored; a patch of 2^20+5 records written in three chunks with the farthest records last; 'refuse': id sets {0..N-1} vs every proper subset/superset of size N-1,N+1 and "
+    "{2,3} on clumped data; from_random with given centres and a patch_num that must be ignored; a patch of 2^20+5 records written in three chunks with the farthest records last; 'refuse' (N in {1,2,3}; after an accepted pair a displaced catalog re-created in the same directory must still be refused): id sets {0..N-1} vs every proper subset/superset of size N-1,N+1 and "
     "centre k displaced by {0, 0.4, 1.1, 3} x the larger radius. Oracle: num_records/sum_weights from the stored "
     "records, Vincenty separation <= radius, centres[i] == given centre i (also after the caller has modified its own centre array in place), nearest-centre partition. "
     "Non-trivial: N>=3 with a non-identity permutation, an empty centre, or a refusal case."
@@ -62,7 +62,7 @@ def cases(tier, seed):
         out.append(dict(part="ids", N=N, weighted=weighted, scramble=scramble, seed=seed))
     for K, weighted in itertools.product((2, 3), (False, True)):
         out.append(dict(part="create", K=K, weighted=weighted, seed=seed))
-    for N in (2, 3):
+    for N in (1, 2, 3):  # N=1: single-patch catalogs are checked like any other
         full = list(range(N))
         others = [s for s in (list(c) for r in (N - 1, N, N + 1) for c in itertools.combinations(range(N + 1), r))
                   if s and s != full]
@@ -362,6 +362,21 @@ def run_refuse_shift(case):
     if must_pass and raised is not None:
         v.append(viol(f"C12/refuse/aligned-refused/{type(raised).__name__}",
                       f"aligned catalogs refused: {yawx.exc_name(raised)}", case))
+    if must_pass and raised is None and case["which"] == "unknown":
+        # history: the aligned pair was measured; now another catalog (same ids, patch k displaced by 3 radii) is created
+        # in the unknown catalog's directory and measured in the same process: must be refused like a fresh pair
+        import yaw
+
+        _, B2 = two_catalogs(N, case["seed"], shift=(k, 1.8), bigger=case.get("bigger", "reference"))
+        cb2 = yawx.make_catalog(d + "/B", B2["ra"], B2["dec"], pid=B2["pid"], overwrite=True)
+        config = yaw.Configuration.create(rmin=0.1, rmax=1.0, unit="deg", edges=[0.1, 0.2, 0.3])
+        try:
+            yaw.crosscorrelate(config, ca, cb2, unk_rand=cb2)
+            v.append(viol("C12/refuse/displaced-centre-accepted/after-aligned-measurement",
+                          f"after a measurement with aligned catalogs a catalog with patch {k} displaced by 1.8 deg, created "
+                          f"in the same directory, was not refused", case))
+        except Exception:
+            pass
     return v, bool(must_raise or must_pass)
 
 
